@@ -555,12 +555,16 @@ func c18Probes(rnd *rand.Rand, vs []s2.Point) []s2.Point {
 }
 
 func c18Sliver(rec *c18Rec, vs []s2.Point, cls, desc string, rnd *rand.Rand) {
+	c18SliverP(rec, vs, cls, desc, c18Probes(rnd, vs))
+}
+
+// c18SliverP: the same with given probes (none of them near the sliver).
+func c18SliverP(rec *c18Rec, vs []s2.Point, cls, desc string, probes []s2.Point) {
 	sub, ok := rec.next()
 	if !ok {
 		return
 	}
 	l := s2.LoopFromPoints(c18Clone(vs))
-	probes := c18Probes(rnd, vs)
 	cnt := 0
 	for _, p := range probes {
 		if l.ContainsPoint(p) {
@@ -781,6 +785,62 @@ func opC18Rand(raw json.RawMessage, o *Out) {
 					map[string]any{"ev": "cadd", "whole": c18K3(whole), "loop3": c18K3(lw), "loop4": c18K3(lp), "poly": c18K3(pc),
 						"lo": [3]emb.Key{c18K(parts.X - tol), c18K(parts.Y - tol), c18K(parts.Z - tol)},
 						"hi": [3]emb.Key{c18K(parts.X + tol), c18K(parts.Y + tol), c18K(parts.Z + tol)}})
+			}
+		case "strip":
+			// A thin strip (half-width w) along a great circle that passes through or within tilt of the poles,
+			// from th0 to th1 degrees (beyond both poles, beyond one, or between them), as a loop and as its
+			// complement: a nearly degenerate sliver and a loop covering almost the whole sphere whose
+			// longitude span is neither small nor necessarily full.
+			w := []float64{2e-15, 2e-14, 1e-13, 1e-12}[rnd.Intn(4)]
+			tilt := []float64{0, 0, 1e-15, 1e-12, 1e-6, 0.3}[rnd.Intn(6)]
+			ends := [][2]float64{{-100, 100}, {-100, 100}, {-95, 80}, {-80, 95}, {-80, 80}, {-179, 170}}[rnd.Intn(6)]
+			per := []int{2, 3, 10, 100}[rnd.Intn(4)]
+			if per > c.MaxN/2 {
+				per = 10
+			}
+			if ends[1]-ends[0] > 170*float64(per-1) {
+				per = 3 // no edge of 180 degrees or more
+			}
+			rot := rnd.Float64() * 2 * math.Pi // longitude of the strip's plane
+			mk := func(thDeg, y float64) s2.Point {
+				th := thDeg * math.Pi / 180
+				x0, y0, z0 := math.Cos(th), y, math.Sin(th)
+				// tilt about the x-axis, then rotate about the z-axis
+				y1, z1 := y0*math.Cos(tilt)-z0*math.Sin(tilt), y0*math.Sin(tilt)+z0*math.Cos(tilt)
+				x2, y2 := x0*math.Cos(rot)-y1*math.Sin(rot), x0*math.Sin(rot)+y1*math.Cos(rot)
+				return s2.Point{Vector: r3.Vector{X: x2, Y: y2, Z: z1}.Normalize()}
+			}
+			if rnd.Intn(3) == 0 {
+				rot = 0 // exactly the xz-plane
+				mk = func(thDeg, y float64) s2.Point {
+					th := thDeg * math.Pi / 180
+					return s2.Point{Vector: r3.Vector{X: math.Cos(th), Y: y, Z: math.Sin(th)}.Normalize()}
+				}
+				tilt = 0
+			}
+			var vs []s2.Point
+			for k := 0; k < per; k++ {
+				vs = append(vs, mk(ends[0]+(ends[1]-ends[0])*float64(k)/float64(per-1), -w))
+			}
+			for k := per - 1; k >= 0; k-- {
+				vs = append(vs, mk(ends[0]+(ends[1]-ends[0])*float64(k)/float64(per-1), w))
+			}
+			nrm := mk(0, 0).Cross(mk(90, 0).Vector).Normalize()
+			var probes []s2.Point
+			for len(probes) < 40 {
+				q := c18RandPoint(rnd)
+				if math.Abs(q.Dot(nrm)) > 1e-3 {
+					probes = append(probes, q)
+				}
+			}
+			desc := fmt.Sprintf("strip of half-width %g along a great circle tilted %g from the poles, %g..%g degrees, %d vertices per side, plane longitude %g", w, tilt, ends[0], ends[1], per, rot)
+			for _, v := range []struct {
+				name string
+				vs   []s2.Point
+			}{{"complement", vs}, {"sliver", c18Rev(vs)}} {
+				c18SliverP(rec, v.vs, "sliver/strip", desc+" ("+v.name+" order)", probes)
+				c18Turn(rec, v.vs, "sliver/strip", desc+" ("+v.name+" order)", rnd)
+				c18Area(rec, v.vs, "sliver/strip", desc+" ("+v.name+" order)", 2*math.Pi, 2*math.Pi, nil, nil, false)
 			}
 		case "longedge":
 			// k points spaced around a great circle, pushed to one side by a small amount:
